@@ -1,6 +1,6 @@
 /-
   Model of the UNSIGNED aws-chunked reader (STREAMING-UNSIGNED-PAYLOAD-TRAILER):
-  s3api/utils/unsigned-chunk-reader.go (`NewUnsignedChunkReader`, `UnsignedChunkReader.Read`,
+  s3api/utils/unsigned-chunk-reader.go as of /repo commit cf70120 (`NewUnsignedChunkReader`, `UnsignedChunkReader.Read`,
   `extractChunkSize`, `readAndSkip`, `readTrailer`, `validateChecksum`), statement by statement.
 
   Conventions
@@ -14,9 +14,8 @@
     error; the model keeps it as the length of the local output `acc`.
   * The trailing-checksum hash is the parameter `Cfg.csum`; the `hash.Hash` fed through the
     `io.TeeReader` is modelled by the list of bytes written (`hashAcc`).
-  * `make([]byte, chunkSize)` panics for `chunkSize < 0` and for `chunkSize > maxAlloc` (2^48 on
-    linux/amd64): outcome `Status.panic`.  Sizes in between are "allocated" (the harness keeps
-    declared sizes below 2^24 or above 2^48, real allocation failures are C20's subject).
+  * `extractChunkSize` rejects sizes below 0 and above `maxUnsignedChunkSize` (5 GiB), so
+    `make([]byte, chunkSize)` cannot panic any more; the model has no panic outcome left.
   * The chunk loop runs on fuel; `read` supplies `input.length + 1`, one iteration consumes at least
     the `\n` of a size line, and `Status.fuel` is never produced (`Props.C12.unsigned_fuel_suffices`).
 -/
@@ -31,7 +30,7 @@ inductive Err where
   deriving DecidableEq, Repr
 
 inductive Status where
-  | nil | eof | err (e : Err) | panic | fuel
+  | nil | eof | err (e : Err) | fuel
   deriving DecidableEq, Repr
 
 structure Out where
@@ -51,7 +50,7 @@ structure State where
 
 def init (stream : Bytes) : State := { input := stream }
 
-def maxAlloc : Int := 281474976710656   -- 1 << 48
+def maxUnsignedChunkSize : Int := 5368709120   -- 5 * 1024 * 1024 * 1024
 
 /-- `ucr.reader.ReadString('\n')`: the line including the `\n` and the rest; `none` = error (EOF). -/
 def readLine : Bytes → Option (Bytes × Bytes)
@@ -69,7 +68,7 @@ def extractChunkSize (input : Bytes) : Option (Int × Bytes) :=
   | some (line, rest) =>
     match parseIntHex64 (trimSpace line) with
     | none => none
-    | some v => some (v, rest)
+    | some v => if v < 0 ∨ v > maxUnsignedChunkSize then none else some (v, rest)
 
 /-- `ucr.readAndSkip(data...)`: EOF becomes io.ErrUnexpectedEOF -/
 def skipBytes (data input : Bytes) : Except Err Bytes :=
@@ -113,11 +112,9 @@ def loop (cfg : Cfg) (cap : Nat) : Nat → State → Bytes → State × Out
         | .eof => (st, ⟨acc, .eof⟩)                 -- return ucr.offset, io.EOF
         | s => (st, ⟨[], s⟩)
       else
-        if chunkSize < 0 ∨ chunkSize > maxAlloc then (st, ⟨[], .panic⟩) else     -- make([]byte, chunkSize)
-        -- io.ReadFull(rdr, payload)
+        -- payload := make([]byte, chunkSize); io.ReadFull(rdr, payload): io.EOF becomes io.ErrUnexpectedEOF
         if st.input.length < chunkSize.toNat then
-          if st.input.isEmpty then ({ st with input := [] }, ⟨[], .eof⟩)          -- io.EOF: nothing read
-          else ({ st with input := [], hashAcc := st.hashAcc ++ st.input }, ⟨[], .err .unexpectedEOF⟩)
+          ({ st with input := [], hashAcc := st.hashAcc ++ st.input }, ⟨[], .err .unexpectedEOF⟩)
         else
         let payload := st.input.take chunkSize.toNat
         let st := { st with input := st.input.drop chunkSize.toNat, hashAcc := st.hashAcc ++ payload }
